@@ -25,6 +25,7 @@ import SwcVerif.Model.AlgoRunRedirect
 import SwcVerif.Model.AlgoRunAssemble
 import SwcVerif.Model.AlgoRunLMeasure
 import SwcVerif.Model.AlgoRunNodeBranch
+import SwcVerif.Model.AlgoRunMst
 import SwcVerif.Model.Assemble
 
 def dispatch (op : String) (args : List String) : String :=
@@ -68,6 +69,7 @@ def dispatch (op : String) (args : List String) : String :=
   | "gredirect" => AlgoRun.handleRedirect args
   | "glm" => AlgoRun.handleLm args
   | "gtips" | "gnodebranch" | "gnode" => AlgoRun.handleNodeBranch op args
+  | "gmst" => AlgoRun.handleMst args
   | "asm" => Asm.handle args
   | "gasm" => AlgoRun.handleAsm args
   | "swcline" => SwcText.handleLine args
